@@ -164,7 +164,8 @@ def run(prog, tier, res):
         fsp = accept.load_spec("c15.json")["flood"]
         for key_, what in (("I", "the member cursor starts at 0 for every new cluster and advances by one after all remaining points were tried"),
                            ("J", "the point cursor starts at 0 for every member and advances by one exactly when the point is not linked"),
-                           ("link", "a point within the distance of the current member is moved from the remaining points into the cluster")):
+                           ("link", "a point within the distance of the current member is moved from the remaining points into the cluster"),
+                           ("cluster_created", "the cluster under construction is created afresh for every seed (inside the seed loop, under the seed's guard only)")):
             if fm.get(key_) == fsp[key_]:
                 res.hit(R6)
             else:
@@ -575,7 +576,18 @@ def flood_model(prog):
         out[role] = sorted(rows)
     pbb, pt = link_push
     tm._pos = (pbb, "t")
-    out["link"] = {"pushes_in_loops": len(pushes), "value": roles(sy.arg_name(tm.operand(pt["args"][1]))), "guards": guards_at(pbb)}
+    out["link"] = {"value": roles(sy.arg_name(tm.operand(pt["args"][1]))), "guards": guards_at(pbb)}
+    # the cluster under construction is a fresh vector for every seed: each (re)creation of CLUSTER lies inside the seed
+    # loop, under the seed's guard only (a buffer reused across seeds keeps the previous component's points)
+    cl_local = None
+    tm._pos = (pbb, "t")
+    ct = tm.operand(pt["args"][0])
+    while ct[0] in ("ref", "deref"):
+        ct = ct[1]
+    if ct[0] in ("mut", "var"):
+        cl_local = ct[1]
+    if cl_local is not None:
+        out["cluster_created"] = sorted([bi in lp, guards_at(bi)] for (bi, si, x) in tm.defs.whole[cl_local])
     return out
 
 
